@@ -194,6 +194,10 @@ pub enum Policy {
     Hash(u32),
 }
 
+/// relies on the provided methods of `AuthorizationHandler` only
+pub struct DefaultAuth;
+impl AuthorizationHandler for DefaultAuth {}
+
 pub struct TestAuth {
     pub policy: Policy,
     pub log: Log,
